@@ -618,7 +618,8 @@ let trace_str (t : tev list) : string =
     | TSpiFault -> "SPI!"
     | TIv c -> iv_name c
     | TIvFault c -> iv_name c ^ "!"
-    | TDelay ns -> "DELAY" ^ dec_of_n ns) t)
+    | TDelay ns -> "DELAY" ^ dec_of_n ns
+    | TIrqPending -> "IRQ-PENDING") t)
 let dec_of_zz = function Z0 -> "0" | Zpos p -> dec_of_n (Npos p) | Zneg p -> "-" ^ dec_of_n (Npos p)
 let rerr_str = function
   | ESpi -> "SPI" | EBusy -> "Busy" | EInvalidConfiguration -> "InvalidConfiguration" | EInvalidRadioMode -> "InvalidRadioMode"
@@ -658,7 +659,8 @@ let run_phy_line (line : string) : string =
   let buf = List.init 256 (fun i -> match List.nth_opt buf0 i with Some b -> b | None -> N0) in
   let c = ref { c_kind = (if is126 then K126 else K127); c_regs = regs; c_reads = (match get "reads" "-" with "-" -> [] | v -> bytes_of_hex v);
                 c_fill = ni (get "fill" "0"); c_buf = buf; c_fifo = N0; c_events = N0;
-                c_fault = (match get "fault" "-" with "-" -> None | v -> Some (ni v)) } in
+                c_fault = (match get "fault" "-" with "-" -> None | v -> Some (ni v));
+                c_drv = []; c_irq_calls = N0; c_irq_budget = n_of_int 6; c_pend = None; c_on_irq = [] } in
   let tcxo = (match get "tcxo" "-" with "-" -> None | v -> Some (ni v)) in
   let g = { g_low_power_pa = (chipname = "sx1261" || chipname = "stm32wl_lp");
             g_pa_table = (match chipname with "sx1261" | "stm32wl_lp" -> sx1261_pa_table | "stm32wl_hp" -> stm32wl_hp_pa_table | _ -> sx1262_pa_table);
@@ -765,6 +767,227 @@ let run_phy_line (line : string) : string =
   with Phy_panic s -> out := s :: !out);
   String.concat " ; " (List.rev !out)
 
+(* ------------------------------------------------------------------ LoRa<RK, DLY> and LorawanRadio histories (Model/LoraDrv.v) *)
+let mode_str = function
+  | MSleep -> "sleep" | MStandby -> "standby" | MTx -> "tx" | MRx (RxSingle n) -> "rxs" ^ dec_of_n n | MRx RxContinuous -> "rxc"
+  | MRx (RxDuty (a, b)) -> "rxd" ^ dec_of_n a ^ ":" ^ dec_of_n b | MListen -> "listen" | MCad -> "cad"
+let drv_state (c : chip) : string =
+  let f i = (match List.nth_opt c.c_drv i with Some (x :: _) -> x <> N0 | _ -> false) in
+  let m = dec_mode (match List.nth_opt c.c_drv 0 with Some v -> v | None -> []) in
+  Printf.sprintf "mode=%s cold=%d cal=%d" (mode_str m) (if f 1 then 1 else 0) (if f 2 then 1 else 0)
+let lora_step (c : chip ref) (p : 'a prog) (show : 'a -> string) (err_show : rerr -> string) : string =
+  let ((c', tr), r) = run (nat_of_int 3000) !c p [] in
+  c := c';
+  let tr_s = trace_str tr in
+  match r with
+  | Some (Inl v) -> Printf.sprintf "%s %s :: %s" (show v) (drv_state c') tr_s
+  | Some (Inr EPanic) -> raise (Phy_panic (Printf.sprintf "PANIC %s :: %s" (drv_state c') tr_s))
+  | Some (Inr ECancelled) -> Printf.sprintf "%s %s :: %s" (err_show ECancelled) (drv_state c') tr_s
+  | Some (Inr e) -> Printf.sprintf "%s %s :: %s" (err_show e) (drv_state c') tr_s
+  | None -> Printf.sprintf "OUT-OF-FUEL %s :: %s" (drv_state c') tr_s
+let plain_err e = if e = ECancelled then "CANCELLED" else "Err(" ^ rerr_str e ^ ")"
+let run_lora_line (line : string) : string =
+  let parts = List.map String.trim (String.split_on_char '|' line) in
+  let head = List.filter (fun s -> s <> "") (String.split_on_char ' ' (List.hd parts)) in
+  let lwr = (List.hd head = "lwr") in
+  let get k d = List.fold_left (fun acc kv -> match String.index_opt kv '=' with
+      | Some i when String.sub kv 0 i = k -> String.sub kv (i + 1) (String.length kv - i - 1) | _ -> acc) d (List.tl head) in
+  let chipname = get "chip" "sx1262" in
+  let is126 = not (String.length chipname >= 5 && String.sub chipname 0 5 = "sx127") in
+  let regs0 = List.init 4096 (fun _ -> N0) in
+  let regs = (match get "regs" "-" with "-" -> regs0 | v ->
+      List.fold_left (fun r p -> match String.split_on_char ':' p with
+          | [a; b] -> set_nthN r (nat_of_int ((int_of_string a) land 0xfff)) (ni b) | _ -> r) regs0 (String.split_on_char ',' v)) in
+  let buf0 = (match get "buf" "-" with "-" -> [] | v -> bytes_of_hex v) in
+  let buf = List.init 256 (fun i -> match List.nth_opt buf0 i with Some b -> b | None -> N0) in
+  let c = ref { c_kind = (if is126 then K126 else K127); c_regs = regs; c_reads = (match get "reads" "-" with "-" -> [] | v -> bytes_of_hex v);
+                c_fill = ni (get "fill" "0"); c_buf = buf; c_fifo = N0; c_events = N0;
+                c_fault = (match get "fault" "-" with "-" -> None | v -> Some (ni v));
+                c_drv = initial_fields (n_of_int 0x3444); c_irq_calls = N0; c_irq_budget = n_of_int 6; c_pend = None; c_on_irq = [] } in
+  let tcxo = (match get "tcxo" "-" with "-" -> None | v -> Some (ni v)) in
+  let g = { g_low_power_pa = (chipname = "sx1261" || chipname = "stm32wl_lp");
+            g_pa_table = (match chipname with "sx1261" | "stm32wl_lp" -> sx1261_pa_table | "stm32wl_hp" -> stm32wl_hp_pa_table | _ -> sx1262_pa_table);
+            g_dio2_rfswitch = (chipname = "sx1261" || chipname = "sx1262");
+            g_tcxo = tcxo; g_dcdc = bool_of_tok (get "dcdc" "0"); g_rx_boost = bool_of_tok (get "rxboost" "0") } in
+  let h = { h_variant = (if chipname = "sx1272" then V1272 else V1276); h_tcxo = (tcxo <> None);
+            h_tx_boost = bool_of_tok (get "txboost" "0"); h_rx_boost = bool_of_tok (get "rxboost" "0") } in
+  let quirk = (not is126) && chipname <> "sx1272" && (match List.nth_opt regs 0x42 with Some v -> v = n_of_int 0x12 | None -> false) in
+  let k = if is126 then kind126 g else kind127 h quirk in
+  let fuel = nat_of_int 40 in
+  let out = ref [] in
+  let rxpk = ref None in
+  let default_pk = { pk_preamble = n_of_int 8; pk_implicit = false; pk_len = n_of_int 255; pk_crc = true; pk_iq = true } in
+  (try
+    (* LoRa::new *)
+    let r0 = lora_step c (init k) (fun () -> "new Ok") (fun e -> if e = ECancelled then "new CANCELLED" else "new Err(" ^ rerr_str e ^ ")") in
+    let created = String.length r0 >= 6 && String.sub r0 0 6 = "new Ok" in
+    if lwr && not created then out := ["new FAILED"]
+    else begin
+      (* the Rust side prints only the mode after new *)
+      let cut s = (let rec find i = if i + 6 > String.length s then String.length s else if String.sub s i 6 = " cold=" then i else find (i + 1) in
+                   let i = find 0 in
+                   let rec find2 j = if j + 4 > String.length s then String.length s else if String.sub s j 4 = " :: " then j else find2 (j + 1) in
+                   let j = find2 i in String.sub s 0 i ^ String.sub s j (String.length s - j)) in
+      out := [if created then cut r0 else (let rec find2 j = if j + 4 > String.length r0 then String.length r0 else if String.sub r0 j 4 = " :: " then j else find2 (j + 1) in
+                                          let j = find2 0 in
+                                          let rec findm i = if i + 6 > String.length r0 then String.length r0 else if String.sub r0 i 6 = " mode=" then i else findm (i + 1) in
+                                          String.sub r0 0 (findm 0) ^ String.sub r0 j (String.length r0 - j))]
+    end;
+    if created then
+    List.iter (fun op ->
+      let toks = List.filter (fun s -> s <> "") (String.split_on_char ' ' op) in
+      if toks <> [] then begin
+        c := { !c with c_fault = None; c_pend = None; c_irq_budget = n_of_int 6; c_on_irq = [] };
+        let rec pre = function
+          | t :: rest when String.length t > 0 && t.[0] = '@' ->
+            let i = String.index t '=' in
+            let kx = String.sub t 1 (i - 1) and v = String.sub t (i + 1) (String.length t - i - 1) in
+            (match kx with
+             | "reads" -> c := { !c with c_reads = bytes_of_hex v }
+             | "reg" -> (match String.split_on_char ':' v with
+                 | [a; b] -> c := { !c with c_regs = set_nthN !c.c_regs (nat_of_int ((int_of_string a) land 0xfff)) (ni b) } | _ -> ())
+             | "fault" -> c := { !c with c_fault = Some (N.add !c.c_events (ni v)) }
+             | "pend" -> c := { !c with c_pend = Some (N.add !c.c_irq_calls (ni v)) }
+             | "irqs" -> c := { !c with c_irq_budget = ni v }
+             | "onirq" -> c := { !c with c_on_irq = List.map (fun x -> match String.split_on_char ':' x with
+                 | [f; hx] -> (ni f, bytes_of_hex hx) | _ -> (ni x, [])) (String.split_on_char ',' v) }
+             | _ -> ());
+            pre rest
+          | l -> l in
+        let a = pre toks in
+        let mk sf bw cr f = k.k_create_mod (ni sf) (ni bw) (ni cr) (ni f) in
+        let rxshow ((len, data), (rssi, snr)) blen =
+          let canary = List.init blen (fun _ -> n_of_int 0xA5) in
+          let shown = data @ (List.filteri (fun i _ -> i >= List.length data) canary) in
+          Printf.sprintf "Ok(%s rssi=%s snr=%s) buf=%s" (dec_of_n len) (dec_of_zz rssi) (dec_of_zz snr) (hexs shown) in
+        let rxerr e = plain_err e ^ " buf=*" in
+        let r =
+          if not lwr then
+          (match a with
+           | ["init"] -> lora_step c (init k) unit_ok plain_err
+           | ["sleep"; w] -> lora_step c (sleep k (bool_of_tok w)) unit_ok plain_err
+           | ["standby"] -> lora_step c (enter_standby k) unit_ok plain_err
+           | ["sync"; sw] -> lora_step c (set_lora_sync_word k (ni sw)) unit_ok plain_err
+           | ["ptx"; sf; bw; cr; f; pw; hx] ->
+             (match mk sf bw cr f with
+              | Inr e -> Printf.sprintf "CreateErr(%s) %s :: " (rerr_str e) (drv_state !c)
+              | Inl md -> (match k.k_create_pkt (n_of_int 8) false N0 true false md with
+                  | Inr e -> Printf.sprintf "CreateErr(%s) %s :: " (rerr_str e) (drv_state !c)
+                  | Inl pk -> lora_step c (prepare_for_tx k md pk (zi pw) (bytes_of_hex hx)) unit_ok plain_err))
+           | ["tx"] -> lora_step c (tx k fuel) unit_ok plain_err
+           | "prx" :: m :: rest ->
+             let (mode, rest) = (match m, rest with
+                 | "s", n :: r -> (RxSingle (ni n), r) | "c", r -> (RxContinuous, r) | _, x :: y :: r -> (RxDuty (ni x, ni y), r) | _, r -> (RxContinuous, r)) in
+             (match rest with
+              | sf :: bw :: cr :: f :: more ->
+                (match mk sf bw cr f with
+                 | Inr e -> Printf.sprintf "CreateErr(%s) %s :: " (rerr_str e) (drv_state !c)
+                 | Inl md ->
+                   let implicit = (match more with i :: _ -> bool_of_tok i | [] -> false) in
+                   let len = (match more with _ :: l :: _ -> ni l | _ -> n_of_int 255) in
+                   (match k.k_create_pkt (n_of_int 8) implicit len true true md with
+                    | Inr e -> Printf.sprintf "CreateErr(%s) %s :: " (rerr_str e) (drv_state !c)
+                    | Inl pk -> rxpk := Some pk; lora_step c (prepare_for_rx k mode md pk) unit_ok plain_err))
+              | _ -> "BADOP")
+           | ["startrx"] -> lora_step c (start_rx k) unit_ok plain_err
+           | [("completerx" | "rx" | "rxresult") as w; bl] ->
+             let pk = (match !rxpk with Some p -> p | None -> default_pk) in
+             rxpk := Some pk;
+             let blen = int_of_string bl in
+             let p = (match w with "completerx" -> complete_rx k fuel pk (ni bl) | "rx" -> rx k fuel pk (ni bl) | _ -> get_rx_result k pk (ni bl)) in
+             lora_step c p (fun v -> rxshow v blen) rxerr
+           | ["switch"; f] -> lora_step c (rx_switch_channel k (ni f)) unit_ok plain_err
+           | ["listen"; f; bw] -> lora_step c (listen k (ni f) (ni bw)) unit_ok plain_err
+           | ["pcad"; sf; bw; cr; f] ->
+             (match mk sf bw cr f with
+              | Inr e -> Printf.sprintf "CreateErr(%s) %s :: " (rerr_str e) (drv_state !c)
+              | Inl md -> lora_step c (prepare_for_cad k md) unit_ok plain_err)
+           | ["cad"; sf] ->
+             (match mk sf "7" "0" "868100000" with
+              | Inr e -> Printf.sprintf "CreateErr(%s) %s :: " (rerr_str e) (drv_state !c)
+              | Inl md -> lora_step c (cad k md) (fun b -> if b then "Ok(true)" else "Ok(false)") plain_err)
+           | ["waitirq"] -> lora_step c wait_for_irq unit_ok plain_err
+           | ["irq"] -> lora_step c (process_irq_event k) irqstate_str plain_err
+           | ["rssi"] -> lora_step c k.k_rssi (fun v -> "Ok(" ^ dec_of_zz v ^ ")") plain_err
+           | ["clrirq"] -> lora_step c k.k_clrirq unit_ok plain_err
+           | _ -> "BADOP")
+          else
+          (let lw_err e = if e = ECancelled then "CANCELLED" else "Err(Radio(" ^ rerr_str e ^ "))" in
+           match a with
+           | ["tx"; sf; bw; cr; f; pw; hx] -> lora_step c (lw_tx k fuel (ni sf) (ni bw) (ni cr) (ni f) (zi pw) (bytes_of_hex hx)) (fun () -> "Ok(0)") lw_err
+           | ["setuprx"; sf; bw; cr; f; ms] ->
+             lora_step c (lw_setup_rx k (ni sf) (ni bw) (ni cr) (ni f) (if ms = "c" then None else Some (ni ms))) (fun pk -> rxpk := Some pk; "Ok(())") lw_err
+           | ["rxsingle"; bl] ->
+             (match !rxpk with
+              | None -> Printf.sprintf "Err(NoRxParams) buf=* %s :: " (drv_state !c)
+              | Some pk ->
+                let blen = int_of_string bl in
+                let r = lora_step c (attempt (rx k fuel pk (ni bl)))
+                    (function
+                      | Inl ((len, data), (rssi, snr)) ->
+                        let canary = List.init blen (fun _ -> n_of_int 0xA5) in
+                        let shown = data @ (List.filteri (fun i _ -> i >= List.length data) canary) in
+                        (* RxQuality::new(rssi, snr as i8) *)
+                        let snr8 = (let v = int_of_z snr in let w = ((v land 0xff) lxor 0x80) - 0x80 in w) in
+                        Printf.sprintf "Ok(Rx %s rssi=%s snr=%d) buf=%s" (dec_of_n len) (dec_of_zz rssi) snr8 (hexs shown)
+                      | Inr EReceiveTimeout -> "Ok(RxTimeout) buf=*"
+                      | Inr e -> "Err(Radio(" ^ rerr_str e ^ ")) buf=*")
+                    (fun e -> if e = ECancelled then "CANCELLED buf=*" else "Err(Radio(" ^ rerr_str e ^ ")) buf=*") in
+                r)
+           | ["rxcont"; bl] ->
+             (match !rxpk with
+              | None -> Printf.sprintf "Err(NoRxParams) buf=* %s :: " (drv_state !c)
+              | Some pk ->
+                let blen = int_of_string bl in
+                lora_step c (rx k fuel pk (ni bl))
+                  (fun ((len, data), (rssi, snr)) ->
+                     let canary = List.init blen (fun _ -> n_of_int 0xA5) in
+                     let shown = data @ (List.filteri (fun i _ -> i >= List.length data) canary) in
+                     let snr8 = (let v = int_of_z snr in ((v land 0xff) lxor 0x80) - 0x80) in
+                     Printf.sprintf "Ok(%s rssi=%s snr=%d) buf=%s" (dec_of_n len) (dec_of_zz rssi) snr8 (hexs shown))
+                  (fun e -> if e = ECancelled then "CANCELLED buf=*" else "Err(Radio(" ^ rerr_str e ^ ")) buf=*"))
+           | ["lowpower"] -> lora_step c (lw_low_power k) unit_ok lw_err
+           | _ -> "BADOP") in
+        out := r :: !out
+      end) (List.tl parts)
+  with Phy_panic s -> out := s :: !out);
+  String.concat " ; " (List.rev !out)
+
+(* ------------------------------------------------------------------ the chip-side monitor (Spec/ChipMon.v) on a pin-level trace *)
+let parse_trace (s : string) : tev list =
+  List.filter_map (fun t ->
+    if t = "" then None else
+    let iv = function "RESET" -> Some IvReset | "BUSY" -> Some IvBusy | "IRQ" -> Some IvIrq | "SWRX" -> Some IvSwRx | "SWTX" -> Some IvSwTx | "SWOFF" -> Some IvSwOff | _ -> None in
+    if t = "IRQ-PENDING" then Some TIrqPending
+    else if t = "SPI!" then Some TSpiFault
+    else if String.length t > 5 && String.sub t 0 5 = "DELAY" then Some (TDelay (ni (String.sub t 5 (String.length t - 5))))
+    else if t.[String.length t - 1] = '!' then (match iv (String.sub t 0 (String.length t - 1)) with Some c -> Some (TIvFault c) | None -> None)
+    else (match iv t with
+        | Some c -> Some (TIv c)
+        | None ->
+          Some (TSpi (List.map (fun sg ->
+              let body = String.sub sg 1 (String.length sg - 1) in
+              let b = if body = "-" then [] else bytes_of_hex body in
+              if sg.[0] = 'w' then TW b else TR b) (String.split_on_char ',' t)))))
+    (String.split_on_char ' ' s)
+let cmode_str = function CSleep -> "sleep" | CStby -> "stby" | CFs -> "fs" | CTx -> "tx" | CRx1 -> "rx1" | CRxc -> "rxc" | CDuty -> "duty" | CCad -> "cad"
+let run_chipmon_line (line : string) : string =
+  let parts = List.map String.trim (String.split_on_char '|' line) in
+  let head = List.filter (fun s -> s <> "") (String.split_on_char ' ' (List.hd parts)) in
+  let get k d = List.fold_left (fun acc kv -> match String.index_opt kv '=' with
+      | Some i when String.sub kv 0 i = k -> String.sub kv (i + 1) (String.length kv - i - 1) | _ -> acc) d (List.tl head) in
+  let fam = if get "fam" "126" = "127" then K127 else K126 in
+  let m = ref power_on in
+  String.concat " ; " (List.map (fun op ->
+      let (name, tr) = (match String.index_opt op ':' with
+          | Some i -> (String.trim (String.sub op 0 i), String.sub op (i + 1) (String.length op - i - 1)) | None -> (op, "")) in
+      let x = { x_fam = fam; x_tcxo = bool_of_tok (get "tcxo" "0"); x_dcdc = bool_of_tok (get "dcdc" "0"); x_listen = (name = "listen") } in
+      m := mon_op x !m (parse_trace tr);
+      Printf.sprintf "mode=%s awake=%d asleep=%d start=%d valid=%s" (cmode_str !m.cm) (if !m.awake then 1 else 0)
+        (if !m.bad_asleep then 1 else 0) (if !m.bad_start then 1 else 0)
+        (String.concat "," (List.filter_map (fun i -> if !m.valid i then Some (string_of_int (int_of_nat (item_tag i))) else None) all_items)))
+      (List.tl parts))
+
 let () =
   (try
     while true do
@@ -775,6 +998,8 @@ let () =
         | [] -> ""
         | "mac" :: _ -> (try run_mac_history line with e -> "DRIVER-EXN " ^ Printexc.to_string e)
         | "phy" :: _ -> (try run_phy_line line with e -> "DRIVER-EXN " ^ Printexc.to_string e)
+        | "chipmon" :: _ -> (try run_chipmon_line line with e -> "DRIVER-EXN " ^ Printexc.to_string e)
+        | ("lora" | "lwr") :: _ -> (try run_lora_line line with e -> "DRIVER-EXN " ^ Printexc.to_string e)
         | op :: args ->
           (match Hashtbl.find_opt handlers op with
            | Some f -> (try f args with e -> "DRIVER-EXN " ^ Printexc.to_string e)
